@@ -1042,6 +1042,22 @@ fn cast_into_memory(
     // if it wasn't variant -> enum, we unwrap the variant fully and check for other casts
     cast_from = cast_from.absolute_intern_ty(true);
 
+    // which side of an error union a value belongs to is decided by its own type (with all its
+    // distincts), the two sides might only differ in that: `Errno!Fd`, where both are
+    // `distinct i32`. only if that type fits neither side (an explicit cast of a distinct value)
+    // the type underneath decides.
+    let union_side_ty = match cast_to.as_ref() {
+        Ty::ErrorUnion {
+            error_ty,
+            payload_ty,
+        } if cast_from_original.can_fit_into(payload_ty)
+            || cast_from_original.can_fit_into(error_ty) =>
+        {
+            cast_from_original
+        }
+        _ => cast_from,
+    };
+
     match (cast_from.as_ref(), cast_to.as_ref()) {
         (
             Ty::AnonStruct { .. } | Ty::ConcreteStruct { .. },
@@ -1240,9 +1256,7 @@ fn cast_into_memory(
             );
         }
         // ok to error union
-        // which side the value belongs to is decided by its own type (with all its distincts),
-        // the two sides might only differ in that: `Errno!Fd`, where both are `distinct i32`
-        (_, Ty::ErrorUnion { payload_ty, .. }) if cast_from_original.can_fit_into(payload_ty) => {
+        (_, Ty::ErrorUnion { payload_ty, .. }) if union_side_ty.can_fit_into(payload_ty) => {
             return Some(cast_payload_into_tagged_union(
                 meta_tys,
                 module,
@@ -1258,7 +1272,7 @@ fn cast_into_memory(
             ));
         }
         // error to error union
-        (_, Ty::ErrorUnion { error_ty, .. }) if cast_from_original.can_fit_into(error_ty) => {
+        (_, Ty::ErrorUnion { error_ty, .. }) if union_side_ty.can_fit_into(error_ty) => {
             return Some(cast_payload_into_tagged_union(
                 meta_tys,
                 module,
